@@ -276,7 +276,7 @@ def run(chk):
     chk.extra_cov["comparisons_resumed_vs_uninterrupted"] = len(cmp_lines)
     chk.extra_cov["of_those_bit_exact_mode"] = len([1 for l, o in cmp_lines if " bits " in l])
     chk.extra_cov["of_those_equal"] = len([1 for l, o in cmp_lines if o == "ok same"])
-    chk.extra_cov["max_deviation_impl_vs_model_float32_over_max_abs_1"] = R.model_cmp.max_dev
+    chk.extra_cov["max_deviation_impl_vs_model_float32_relative_to_quantity_scale"] = R.model_cmp.max_dev
     report_violations(chk, judged, quick, use_spec=False, judge_line=judge_line, expected="verdict:",
                       protect=("mode", "device", "opt", "param", "add", "addm", "checkpoint", "restore"))
     if not chk.violations:
